@@ -504,6 +504,10 @@ ORIGINS = ["http://a.test", "http://b.test", "http://c.test"]
 
 class TagServer(Server):
     def on_request(self, sock, req, idx):
+        if req.target.startswith("/to"):
+            # /to<j>-<n>: a redirect to origin j
+            j, n = req.target[3:].split("-")
+            return [response(302, b"", headers=[("Location", "%s/p%s" % (ORIGINS[int(j)], n))])]
         body = ("%s|%s" % (req.get("host"), req.target)).encode()
         return [response(200, body)]
 
@@ -548,6 +552,17 @@ class MWorld:
                 if r.data != want:
                     self.viol.append(("wrong-body", {"op": kind}, r.data, want))
                 self._ref_touch(k)
+            elif kind == "redirect":
+                # origin k answers with a redirect to the next origin: both pools are used, the target's last
+                k = op[1]
+                j = (k + 1) % len(ORIGINS)
+                self.n += 1
+                r = pm.request("GET", "%s/to%d-%d" % (ORIGINS[k], j, self.n))
+                want = ("%s|/p%d" % (ORIGINS[j][7:], self.n)).encode()
+                if r.data != want:
+                    self.viol.append(("wrong-body", {"op": kind}, r.data, want))
+                self._ref_touch(k)
+                self._ref_touch(j)
             elif kind == "stream":
                 k = op[1]
                 self.n += 1
@@ -613,7 +628,7 @@ class MWorld:
     def ops(self):
         o = []
         for k in range(len(ORIGINS)):
-            o += [("request", k), ("cfu", k)]
+            o += [("request", k), ("cfu", k), ("redirect", k)]
             if len(self.open) < 2:
                 o.append(("stream", k))
         for i in range(len(self.open)):
